@@ -91,6 +91,9 @@ func runC15(rc *RC) {
 	ack := ch.Chance("workload", 1, 2)
 	if wrap {
 		block, ack = 1, false
+		// every Encode starts a short-lived goroutine; under a strategy that lets the writer run on for thousands of
+		// steps these pile up unscheduled and each step has to look at all of them
+		rc.S.Strat, strat = simrt.StratUniform, "uniform(wrap)"
 	}
 	acceptMode := ch.Int("workload", 6) // 0-2 Accept, 3-4 Expect, 5 no listener
 	reverse := ch.Chance("workload", 1, 3) && !wrap
